@@ -23,9 +23,14 @@ def run(tier, seed, flavour="plain", prop="C12"):
         "reference (mu, lambda) of a modulus pair: textbook linear/quadratic inversions evaluated in binary128 from the same "
         "rounded inputs the constructor received, validated at start-up against the four forward identities of the property text; "
         "where the inversion is a quadratic ((E,lambda), (E,M)) the root with lambda >= 0 (nu in [0, 0.5)) is the material meant",
-        "bound |got - ref| <= 4 (ulp(ref) + Delta), Delta = largest change of the reference when one input moves by one ulp "
-        "(DESIGN.md 2.5); derived accessors and round trips: own bound plus the bound of the previous stage carried through the "
-        "exact map; cross-precision calls are judged in ulps of the coarser of (model type, argument type)",
+        "constructors/accessors: bound |got - ref| <= 4 (ulp(ref) + Delta), Delta = largest change of the reference when one input "
+        "moves by one ulp (DESIGN.md 2.5, cond.hpp)",
+        "Stress/Strain slots (8 inputs: mu, lambda, six slots): |got - ref| <= 4 (ulp(ref) + Delta + ulp(sum of |terms|)) with Delta "
+        "the first-order change when every input moves by one ulp (sum of the one-at-a-time changes); the last term is the "
+        "rounding of the type at the scale of the terms that are added (2 mu eps, lambda tr eps; sigma/2mu, b tr sigma): with the "
+        "one-at-a-time maximum alone a correct evaluation of the documented formula exceeds 4 for near-incompressible dilatation",
+        "derived accessors and round trips: own bound plus the bound of the previous stage carried through the exact map; "
+        "cross-precision calls are judged in ulps of the coarser of (model type, argument type)",
         "a rounded input pair for which no real material exists (E > M after rounding) or which does not determine one "
         "((lambda, nu) = (0, 0)) has no reference and is counted, not judged",
     ]
@@ -70,7 +75,7 @@ def run(tier, seed, flavour="plain", prop="C12"):
     def grp(prefix):
         return {k[len(prefix):]: v for k, v in sorted(mx.items()) if k.startswith(prefix)}
 
-    delta_dom = {k: v for k, v in grp("delta_over_ulp|").items() if v > 1000}
+    delta_dom = {k: v for k, v in grp("delta_over_ulp|").items() if v > 100}
     V.coverage = {
         "evaluations": m["evaluations"], "distinct_nontrivial": m["distinct_nontrivial"],
         "rule": "ground-truth materials: mu log-uniform over 2^-20..2^40 Pa (float 2^-13..2^27), nu from {0, 1e-9, 0.25, 0.3, 0.499, "
@@ -88,12 +93,14 @@ def run(tier, seed, flavour="plain", prop="C12"):
         "tensor_models": {k: v for k, v in sorted(cnt.items()) if k.startswith("tensor_model")},
         "max_error_in_bound_units(limit 4)": {
             "constructor_stored_state": grp("err_ctor|"), "accessor_end_to_end": grp("err_accessor|"),
+            "accessor_end_to_end_by_constructor(worst 12)": dict(sorted(grp("err_accessor_by_ctor|").items(), key=lambda kv: -kv[1])[:12]),
             "identity": grp("err_identity|"), "rebuild": grp("err_rebuild|"), "stress": grp("err_stress|"),
-            "strain": grp("err_strain|"), "roundtrip_strain_of_stress": grp("err_roundtrip_Strain(Stress(eps))|"),
+            "strain": grp("err_strain|"), "stress_or_strain_in_ulps_of_largest_term": grp("err_ulps_of_largest_term|"),
+            "roundtrip_strain_of_stress": grp("err_roundtrip_Strain(Stress(eps))|"),
             "roundtrip_stress_of_strain": grp("err_roundtrip_Stress(Strain(sigma))|"),
         },
-        "max_delta_over_ulp_per_constructor": grp("delta_over_ulp|"),
-        "constructors_where_the_conditioning_term_dominates(delta>1000ulp)": delta_dom,
+        "max_delta_in_ulps_of_max(|ref|,mu)_per_constructor": grp("delta_over_ulp|"),
+        "constructors_where_the_conditioning_term_dominates(delta>100ulp)": delta_dom,
         "inputs_without_reference": {
             "constructor": {k[len("ctor_inputs_without_reference|"):]: v for k, v in sorted(cnt.items())
                             if k.startswith("ctor_inputs_without_reference|")},
